@@ -97,7 +97,9 @@ def run(R):
                     'Trailer is reported only behind a comparison of the buffered length with the trailers frame length: %r (otherwise a chunk boundary inside the trailers frame yields a partial block and then "Invalid header bit")' % okc)
         # header completeness test uses 5
         lt5 = [bb for bb in ft.live_blocks() if ft.term(bb)['k'] == 'switch' and (lambda o: o[0] == 'bin' and o[1] in ('Lt', 'Le') and const_val(o[3]) in (5,) and is_call(strip_refs(o[2]), name='len'))(ft.origin(ft.term(bb)['on']))]
-        R.check(len(lt5) >= 1 and all(ft.origin(ft.term(bb)['on'])[1] == 'Lt' for bb in lt5), 'C17.R1', 'needs-5-byte-header', site(ft), 'frames are examined only when len() >= 5 (strict < 5 test): %d site(s)' % len(lt5))
+        gu = [(bb, t) for bb, t in ft.calls(pat='bytes::Buf::get_')]
+        okh = bool(lt5) and all(any(s_ in lt5 and vals == [0] for s_, vals, tm in ft.edge_guards(gb)) for gb, gt in gu)
+        R.check(okh, 'C17.R1', 'needs-5-byte-header', site(ft), 'every header read in find_trailers is behind the false edge of len() < 5 (or <= 5): %r (%d getter sites)' % (okh, len(gu)))
 
     # ---------------------------------------------------------------- R2 termination / no loss in the client loop
     R.describe('C17.R2', 'client decode loop: the inner body is never polled again after it ended; a clean end requires the body ended, an empty buffer and no stored trailers; while the body is open a too-short buffer waits for more data')
